@@ -80,6 +80,7 @@ fn main() {
         "C14" => pverif::c14::run(tier, seed, replay),
         "C20" => pverif::c20::run(tier, seed, replay),
         "C17" => pverif::c17::run(tier, seed, replay),
+        "selftest" => pverif::selftest::run(),
         "C19" => pverif::c19::run(tier, seed, replay),
         _ => {
             eprintln!("unknown property {prop}");
